@@ -130,6 +130,10 @@ def order_bodies(thorough=False):
         for seq in itertools.product("fxXFG", repeat=k):
             parts = [kinds[c](i) for i, c in enumerate(seq)]
             out.append(("order:" + "".join(seq), tuple(parts), c01.build_body(parts, B)))
+    # four small parts of either kind in every order (part counting exactly at the limit, N = 4)
+    for seq in itertools.product("fF", repeat=4):
+        parts = [kinds[c](i) for i, c in enumerate(seq)]
+        out.append(("order:" + "".join(seq), tuple(parts), c01.build_body(parts, B)))
     return out
 
 
@@ -311,6 +315,9 @@ def judge_decoder(descr, parts, mfms, max_parts, term):
     if kind == "RETL":
         if mfms is None and max_parts is None:
             return "RETL-without-any-limit"
+        if mfms is None and nparts(parts) <= max_parts:
+            # the only limit set is the part count and the body has no more parts than allowed
+            return "RETL-although-part-count-within-max_form_parts"
         return None
     if max_parts is not None and nparts(parts) > max_parts:
         return "too-many-parts-not-refused:" + kind
@@ -373,7 +380,11 @@ def judge_parser(parts, mfms, mparts, got, peak=0):
             return "RETL-without-any-limit"
         return None if got in ("RETL", "EXC:ValueError") else "unexpected-outcome:" + got
     if got == "RETL":
-        return "RETL-without-any-limit" if (mfms is None and mparts is None) else None
+        if mfms is None and mparts is None:
+            return "RETL-without-any-limit"
+        if mfms is None and nparts(parts) <= mparts:
+            return "RETL-although-part-count-within-max_form_parts"
+        return None
     tag = "success" if isinstance(got, tuple) else got
     if mfms is not None and biggest_field(parts) > mfms:
         return "field-larger-than-max_form_memory_size-not-refused:" + tag
@@ -557,6 +568,8 @@ def judge_form(cfg, truth, got, inp):
     if got == "RETL":
         if mfms is None and mparts is None and mcl is None:
             return "RETL-without-any-limit"
+        if mfms is None and mcl is None and special is None and np_ is not None and np_ <= mparts:
+            return "RETL-although-part-count-within-max_form_parts"
         return None
     # parsing "succeeded"
     if special == "none-parsed":
@@ -726,6 +739,10 @@ def units(tier):
                 continue                      # these bodies do not depend on L
             if descr.startswith("order:"):
                 us.append(("P", L, bi, ORDER_M))
+                if set(descr[6:]) <= set("fF"):
+                    # small parts only, no memory limit: max_form_parts alone decides (N parts with max N must
+                    # parse, N+1 must be refused, whatever the kinds and their order)
+                    us.append(("P", L, bi, None))
                 continue
             if descr.startswith("state:"):
                 for mfms in STATE_M:
@@ -746,10 +763,10 @@ def units(tier):
         if L in P["Ls_F"]:
             nmb = len(form_bodies(L))
             for fi in range(nmb):
-                for mcl_kind in ("none", "small", "exact", "large"):
+                for mcl_kind in ("none", "zero", "small", "exact", "large"):
                     us.append(("F", L, fi, mcl_kind))
     for bi in range(len(h_bodies())):
-        for mcl_kind in ("none", "small", "exact", "large"):
+        for mcl_kind in ("none", "zero", "small", "exact", "large"):
             for with_cl in (True, False):
                 us.append(("H", bi, mcl_kind, with_cl))
     return us
@@ -874,7 +891,7 @@ def run_unit(unit, R, tier):
         import itertools
         _k, bi, mcl_kind, with_cl = unit
         n = len(h_bodies()[bi][2])
-        mcl = {"none": None, "small": n // 2, "exact": n, "large": 10 * n}[mcl_kind]
+        mcl = {"none": None, "zero": 0, "small": n // 2, "exact": n, "large": 10 * n}[mcl_kind]
         for terminated in (False, True):
             for accesses in itertools.chain.from_iterable(itertools.product(H_ACCESSES, repeat=k) for k in (1, 2, 3)):
                 cfgh = (bi, with_cl, terminated, mcl, accesses)
@@ -893,7 +910,7 @@ def run_unit(unit, R, tier):
         _k, L, fi, mcl_kind = unit
         descr, ctype, body, truth = form_bodies(L)[fi]
         n = len(body)
-        mcl = {"none": None, "small": n // 2, "exact": n, "large": 10 * n}[mcl_kind]
+        mcl = {"none": None, "zero": 0, "small": n // 2, "exact": n, "large": 10 * n}[mcl_kind]
         np_ = truth[1]
         big = truth[2]
         st = E4.Stats()
@@ -953,7 +970,7 @@ def finalize(R, tier):
     need = {"family:field", "family:file", "family:tiny", "family:preamble", "family:bigheader", "family:nodelim",
             "family:two-fields", "D:ok", "D:RETL", "D:EXC", "D:receive-RETL", "P:ok", "P:RETL", "P:EXC",
             "F:ok", "F:RETL", "F:url", "F:multipart", "F:declared-length-lies", "family:state", "family:order", "H:data", "H:empty", "H:RETL", "F:via-request-cached", "F:via-request-instance",
-            "F:via-parser-not-silent", "F:via-request-get-data-parse", "F:via-parser-parse-direct", "F:notform", "F:ill", "F:mcl-none", "F:mcl-small", "F:mcl-exact", "F:mcl-large"}
+            "F:via-parser-not-silent", "F:via-request-get-data-parse", "F:via-parser-parse-direct", "F:notform", "F:ill", "F:mcl-none", "F:mcl-zero", "F:mcl-small", "F:mcl-exact", "F:mcl-large"}
     missing = need - R.used
     if missing:
         raise core.Broken(f"vacuity: never exercised {sorted(missing)}")
